@@ -40,11 +40,13 @@ Print Assumptions C14_mb_linear.
 Theorem C14_mb_kinetic : forall m kT xi, 0 < m -> 0 <= kT -> mb_p m kT xi * mb_p m kT xi / (2 * m) = xi * xi * kT / 2.
 Proof. exact mb_kinetic. Qed.
 Print Assumptions C14_mb_kinetic.
-(* forced: kinetic temperature = target up to the code's 1e-15 regulariser *)
-Theorem C14_forced_temperature : forall kT ke dof, 0 <= kT -> 0 < ke -> 0 < dof ->
-  kT * (1 - / 1000000000000000 / (2 * ke / dof)) <= 2 * ke_after_forced kT ke dof / dof <= kT.
-Proof. exact forced_temperature_close. Qed.
+(* forced: the kinetic temperature IS the target (the shipped 1e-15 regulariser, which missed it by 1e-15/kT, was repaired: repo 124b150) *)
+Theorem C14_forced_temperature : forall kT ke dof, 0 <= kT -> 0 < ke -> 0 < dof -> 2 * ke_after_forced kT ke dof / dof = kT.
+Proof. exact forced_temperature_exact. Qed.
 Print Assumptions C14_forced_temperature.
+Theorem C14_forced_nothing_to_rescale : forall kT dof, forced_scale kT 0 dof = 1.
+Proof. exact forced_scale_zero. Qed.
+Print Assumptions C14_forced_nothing_to_rescale.
 
 (* the kinetic energy recorded for the acceptance test is that of the freshly drawn momenta of the successful attempt *)
 Theorem C14_ke_is_fresh : forall K refresh integ check attempts k s s',
